@@ -1,7 +1,8 @@
 #!/bin/bash
 # Thorough tier: (1) negative controls — every seeded/control patch registered for the property is applied to an
-# in-memory overlay of the current tree and the named rule must report it; (2) the full rule set on GOARCH=386
-# (build-tagged files, 32-bit int); (3) the full rule set on the real tree, which writes the evidence.
+# in-memory overlay of the current tree (one process each) and the result (detected / missed / stale) is recorded in the
+# evidence; (2) the full rule set on the real tree with tier=thorough (rules widen their scope, e.g. lock pairing over the
+# whole module), which writes the evidence.
 set -uo pipefail
 . "$(dirname "${BASH_SOURCE[0]}")/env.sh"
 REPO="${VERIF_REPO:-/repo}"
@@ -15,8 +16,8 @@ python3 "$VERIF_DIR/controls.py" "$ID" "$REPO" "$WORK" "$BIN" > "$CTL.log" 2>&1
 CRC=$?
 cat "$CTL.log"
 RC=0
-"$BIN" -repo "$REPO" -property "$ID" -tier thorough -goarch 386 -known "$VERIF_DIR/known_findings.json" -out "$VERIF_DIR/out" > "$WORK/386.log" 2>&1 || RC=1
-sed 's/^/[386] /' "$WORK/386.log"
+# (A GOARCH=386 pass was planned; the module does not type-check on 32-bit targets — untyped constants overflow int in
+# internal/basicchain, pkg/rpcclient/rolemgmt, pkg/services/rpcsrv, pkg/vm — so it cannot be loaded whole. See DESIGN.md §9.)
 "$BIN" -repo "$REPO" -property "$ID" -tier thorough -known "$VERIF_DIR/known_findings.json" -out "$VERIF_DIR/out" -evidence "$EV" -controls-json "$CTL" || RC=1
 # A missed or stale control says something about the checker, not about the property: it is recorded in the
 # evidence (coverage.negative_controls) and printed, but never raises a VIOLATION.
